@@ -281,6 +281,12 @@ def inertia(m, r):
     return I
 
 
+def inertia_rank(m, X, rtol=1e-6):
+    """number of non-negligible principal moments of inertia (3 generic, 2 collinear atoms, 0 single atom)."""
+    w = np.linalg.eigvalsh(inertia(m, np.asarray(X, float) - com(m, X)))
+    return int((w > rtol * max(w.max(), 1e-300)).sum())
+
+
 def strip_rigid(m, X, V, linear=True, angular=True):
     """remove net linear and/or angular momentum from V (numpy; pseudo-inverse for linear molecules)."""
     m = np.asarray(m, float)
